@@ -6,3 +6,7 @@ DRIVERS = [("smachine", "Machine")]
 
 def check(tier: str) -> int:
     return scommon.scheck("C07", tier)
+
+
+def replay(path: str) -> int:
+    return scommon.sreplay("C07", path)
